@@ -65,6 +65,19 @@ type KnownFinding struct {
 	WhatFails string `json:"what_fails"`
 	Witness   string `json:"witness,omitempty"`
 	Commit    string `json:"commit,omitempty"`
+	Also      []string `json:"also_properties,omitempty"` // other properties whose checks run the same harness
+}
+
+func (k *KnownFinding) appliesTo(pid string) bool {
+	if k.Property == pid {
+		return true
+	}
+	for _, a := range k.Also {
+		if a == pid {
+			return true
+		}
+	}
+	return false
 }
 
 type replayItem struct {
@@ -349,7 +362,7 @@ func cmdCheck(args []string) int {
 		}
 		var myKnown []string
 		for _, k := range kfs {
-			if k.Property == pid && k.Status == "known" && (k.Harness == h.Name || k.Harness == "") {
+			if k.appliesTo(pid) && k.Status == "known" && (k.Harness == h.Name || k.Harness == "") {
 				cfg.Known[k.ID] = true
 				myKnown = append(myKnown, k.ID)
 			}
